@@ -161,10 +161,10 @@ def finish(
     EVIDENCE_DIR.mkdir(parents=True, exist_ok=True)
     (EVIDENCE_DIR / f'{prop}.json').write_text(json.dumps(ev, indent=1, default=str))
 
+    if violations:
+        return 1  # a violation stands even if another rule could not run (its ANALYSIS-ERROR line is printed above)
     if analysis_errors:
         return 2
-    if violations:
-        return 1
     print(f'OK property={prop} tier={tier} rules={len(reports)} instances={n_inst} '
           f'known_findings={len(known_hits)} wall={ev["wall_s"]}s')
     return 0
